@@ -38,6 +38,77 @@ def _spell(rng, c, native):
     return rng.choice(opts) if opts else None
 
 
+def _gitlab_delegated(ctx):
+    """GitLab ranges of the package types that are handed to the native converters (maven, nuget, conan): the result is
+    a range of that scheme whose constraints are the stated pairs, on versions of that scheme's own class"""
+    import itertools
+    for gl, scheme in (("maven", "maven"), ("nuget", "nuget"), ("conan", "conan")):
+        rc = VR.RANGE_CLASS_BY_SCHEMES[scheme]
+        rng = ctx.rng("c15-delegated", scheme)
+        stream = "notations:" + scheme
+        for _ in range(30):
+            a, b = sorted([(rng.randint(0, 9), rng.randint(0, 9), rng.randint(0, 9)) for _ in range(2)])
+            if a == b:
+                continue
+            ta, tb = "%d.%d.%d" % a, "%d.%d.%d" % b
+            if scheme == "conan":
+                cases = [(">=%s <%s" % (ta, tb), [("ge", ta), ("lt", tb)]), ("=%s" % ta, [("eq", ta)]), (">%s" % ta, [("gt", ta)]),
+                         (">=%s <%s || =%s" % (ta, ta[:-1] + str(a[2] + 1), tb), None)]
+            else:
+                cases = [("[%s]" % ta, [("eq", ta)]), ("[%s,%s)" % (ta, tb), [("ge", ta), ("lt", tb)]), ("(%s,%s]" % (ta, tb), [("gt", ta), ("le", tb)]),
+                         ("[%s],[%s,)" % (ta, tb), [("eq", ta), ("ge", tb)]), ("(,%s]" % ta, [("le", ta)])]
+            for expr, pairs in cases:
+                ctx.count(stream, key=("gitlab", expr), nontrivial=True, branch="delegated")
+                why = None
+                try:
+                    got = VR.from_gitlab_native(gl, expr)
+                    if type(got) is not rc:
+                        why = "result has type %s" % type(got).__name__
+                    elif any(type(c.version) is not rc.version_class for c in got.constraints if c.version is not None):
+                        why = "a constraint holds a %s, the scheme's versions are %s" % (
+                            next(type(c.version).__name__ for c in got.constraints if type(c.version) is not rc.version_class), rc.version_class.__name__)
+                    elif pairs is not None:
+                        want = _expected(rc, pairs)
+                        if not (got == want) or str(got) != str(want):
+                            why = "result %s differs from the stated constraints %s" % (got, want)
+                    if why is None:
+                        back = VersionRange.from_string(str(got))
+                        if not (back == got):
+                            why = "the result %s does not equal the range its own text says" % got
+                        rc.version_class(ta) in got
+                except Exception as e:  # noqa: BLE001
+                    why = "raises %s: %s" % (type(e).__name__, e)
+                if why:
+                    ctx.disagree(stream, "gitlab %s %r" % (gl, expr), why, "the stated constraints", True,
+                                 {"scheme": scheme, "notation": "gitlab", "expression": expr, "clause": why}, spec="the stated constraints")
+                    break
+
+
+def _gitlab_unsupported(ctx):
+    """a comparator the package type's table does not translate (PyPI '~=' and '==='): the converter refuses the
+    expression; it does not answer with another comparator"""
+    for gl, scheme, ops in (("pypi", "pypi", ["~=", "==="]),):
+        rc = VR.RANGE_CLASS_BY_SCHEMES[scheme]
+        for op in ops:
+            if rc.vers_by_native_comparators.get(op, "missing") not in (None, "missing"):
+                continue      # the table translates it now: then it is an ordinary comparator
+            for expr in ("%s1.2.3" % op, ">=1.0,%s1.2.3" % op, "%s 1.2.3" % op):
+                ctx.count("notations:" + scheme, key=("gitlab-unsupported", expr), nontrivial=True, branch="unsupported")
+                try:
+                    got = VR.from_gitlab_native(gl, expr)
+                except ValueError:
+                    continue
+                except Exception as e:  # noqa: BLE001
+                    ctx.disagree("notations:" + scheme, "gitlab %s %r" % (gl, expr), "raises %s" % type(e).__name__, "ValueError", True,
+                                 {"scheme": scheme, "expression": expr, "clause": "an unsupported comparator raises %s" % type(e).__name__},
+                                 spec="ValueError")
+                    continue
+                ctx.disagree("notations:" + scheme, "gitlab %s %r" % (gl, expr), "answers %s" % got, "ValueError", True,
+                             {"scheme": scheme, "expression": expr,
+                              "clause": "the comparator %r is not one the notation translates, yet the converter answers %s" % (op, got)},
+                             spec="ValueError")
+
+
 def correspondence(ctx):
     n = 40000 if ctx.thorough else 2000
     T.run_corr(ctx, "corr_advisory", "advisory-model", n)
@@ -144,5 +215,7 @@ def correspondence(ctx):
                     ctx.disagree(stream, "%s %s" % (kind, pairs), why, str(want), True,
                                  {"scheme": scheme, "notation": kind, "pairs": pairs, "clause": why,
                                   "texts": {"github": gh, "snyk-comma": sc, "snyk-space": ss, "vers": vt}}, spec=str(want))
+    _gitlab_delegated(ctx)
+    _gitlab_unsupported(ctx)
     ctx.sample({"github": ">= 1.0.0, < 2.0.0", "scheme": "npm",
                 "result": common.safe(lambda: VR.build_range_from_github_advisory_constraint("npm", ">= 1.0.0, < 2.0.0"))})
